@@ -169,6 +169,7 @@ def run(src, tier, seed):
     r = res.rule('let-dump-postorder', 'in Logic::dumpWithLets every path through one iteration of the child scan on which the child has no definition yet and is of a kind that is '
                  'printed by its definition name raises the wait flag, so the parent is not printed with an empty operand', floor=2)
     let_dump_rule(fx, res, r)
+    number_printing_rule(fx, res)
     return res
 
 
@@ -393,3 +394,32 @@ def let_dump_rule(fx, res, r):
         res.ok(r, 'emission refers by name to kinds %s, all awaited by the scan (%s)' % (sorted(emit_kinds), sorted(scan_kinds)))
     else:
         res.bad(r, 'let-dump-kind-mismatch', fx.loc(f), 'Logic::dumpWithLets prints children of kinds %s by their definition name but the scan waits only for %s' % (sorted(emit_kinds), sorted(scan_kinds)))
+
+
+def number_printing_rule(fx, res):
+    """Numeric constants reach the response channel through ArithLogic::termToSMT2StringImpl.  FastRational's own printers write a fraction as `n/d` (get_str / print_
+    always, print / operator<< for numbers beyond a machine word), which is not an SMT-LIB token; the term printer therefore has to split the text at '/' and
+    write (/ n d) and (- n) itself."""
+    from facts import fwalk, walk, callee, see_through
+    from build import AnalysisBroken
+    r = res.rule('numbers-printed-in-smtlib-form', 'the printer of numeric constants (ArithLogic::termToSMT2StringImpl) never streams a FastRational with its own printers into the result: text '
+                 'obtained from FastRational::get_str is split at \'/\' and re-assembled as (/ n d), a negative value as (- n)', floor=1)
+    fs = [f for f in fx.F.values() if f['name'] == 'opensmt::ArithLogic::termToSMT2StringImpl' and f.get('body')]
+    if len(fs) != 1:
+        raise AnalysisBroken('ArithLogic::termToSMT2StringImpl not found (%d)' % len(fs))
+    f = fs[0]
+    raw = [n for n in fwalk(f) if n.get('k') == 'call' and not n.get('as') and (callee(n) in ('opensmt::FastRational::print', 'opensmt::FastRational::print_') or
+                                                                               (n.get('op') == '<<' and any('FastRational' in (p_ or '') or 'Number' in (p_ or '') for p_ in (n.get('pt') or []))))]
+    texts = [n for n in fwalk(f) if n.get('k') == 'call' and callee(n) == 'opensmt::FastRational::get_str']
+    splits = any(n.get('k') in ('bin', 'call') and n.get('op') in ('==', '!=') and any(isinstance(x, dict) and x.get('k') == 'chr' and x.get('v') == 47 for x in walk(n)) for n in fwalk(f))
+    builds = any(isinstance(n, dict) and n.get('k') in ('str', 'lit') and isinstance(n.get('v'), str) and '(/ ' in n['v'] for n in fwalk(f))
+    if raw:
+        res.bad(r, 'number-streamed-raw', fx.loc(f, raw[0].get('ln')), 'ArithLogic::termToSMT2StringImpl streams a FastRational into the printed term with the number\'s own printer: for a value beyond a '
+                'machine word that printer writes n/d (and -n), which is not an SMT-LIB token, so get-model / get-value / interpolants / dumped queries with such constants cannot be read back')
+    elif texts and not (splits and builds):
+        res.bad(r, 'fraction-not-reassembled', fx.loc(f, texts[0].get('ln')), 'ArithLogic::termToSMT2StringImpl takes the text of FastRational::get_str (n/d) without splitting it at \'/\' and writing '
+                '(/ n d): fractions are printed as a token SMT-LIB does not have')
+    elif not texts:
+        raise AnalysisBroken('ArithLogic::termToSMT2StringImpl: neither get_str nor a raw printer is used for numeric constants; the rule must be re-confirmed')
+    else:
+        res.ok(r, 'termToSMT2StringImpl: get_str text split at \'/\' and written as (/ n d)')
